@@ -138,7 +138,7 @@ async def _main(case, obs, loop, net):
         fut.add_done_callback(cb)
 
     def pending_ids():
-        return [s["id"] for s in obs.sends if s.get("accepted") and "outcome" not in s]
+        return [s["id"] for s in obs.sends if s.get("accepted") and not s["fut"].done()]
 
     async def do_stop(tag):
         stopped["called"] = True
@@ -148,7 +148,7 @@ async def _main(case, obs, loop, net):
         obs.stop = {"t_call": t0, "t_return": loop._vtime, "pending_at_call": pend, "tag": tag,
                     "undone_at_return": [s["id"] for s in obs.sends
                                          if s.get("accepted") and s.get("t_accept", 1e18) <= t0
-                                         and "outcome" not in s]}
+                                         and not s["fut"].done()]}
 
     async def run_task(ti, ops):
         for oi, op in enumerate(ops):
@@ -163,7 +163,7 @@ async def _main(case, obs, loop, net):
                     obs.flushes.append({"t_call": t0, "t_return": loop._vtime,
                                         "undone_at_return": [s["id"] for s in obs.sends
                                                              if s["id"] in set(map(tuple, pend))
-                                                             and "outcome" not in s]})
+                                                             and not s["fut"].done()]})
                 except Exception as e:
                     obs.notes.append("flush raised %r" % e)
             elif kind == "stop":
@@ -240,7 +240,7 @@ async def _main(case, obs, loop, net):
         except asyncio.TimeoutError:
             obs.final_flush_returned = None
             obs.notes.append("final flush did not return within bound")
-        obs.unresolved_after_bound = [s["id"] for s in obs.sends if s.get("accepted") and "outcome" not in s]
+        obs.unresolved_after_bound = [s["id"] for s in obs.sends if s.get("accepted") and not s["fut"].done()]
         try:
             await asyncio.wait_for(do_stop("final"), bound)
             obs.final_stop_returned = loop._vtime
@@ -248,7 +248,7 @@ async def _main(case, obs, loop, net):
             obs.notes.append("final stop did not return within bound")
     else:
         await asyncio.sleep(bound)
-        obs.unresolved_after_bound = [s["id"] for s in obs.sends if s.get("accepted") and "outcome" not in s]
+        obs.unresolved_after_bound = [s["id"] for s in obs.sends if s.get("accepted") and not s["fut"].done()]
     st = producer._sender.sender_task
     if st is not None and st.done() and not st.cancelled() and st.exception() is not None:
         obs.sender_exc = repr(st.exception())
